@@ -45,6 +45,8 @@ func init() {
 			{ID: "C09-R19", Title: "tables that Clone snapshots are written under the clone lock", Floor: 3, Run: cloneTablesAreWrittenUnderTheCloneLock},
 			{ID: "C09-R20", Title: "slices the host hands in are copied before they are written in", Floor: 2, Run: hostSlicesAreCopiedBeforeTheyAreWrittenIn},
 			{ID: "C09-R21", Title: "the compiler does not write into the syntax tree (shared with C05-R13)", Floor: 1, Run: theCompilerDoesNotWriteIntoTheSyntaxTree},
+			{ID: "C09-R22", Title: "immutable values are not written by their methods (shared with C16-R22)", Floor: 50, Run: immutableValuesAreNotWrittenByTheirMethods},
+			{ID: "C09-R23", Title: "process-wide objects of the standard library are not configured", Floor: 1, Run: processWideObjectsAreNotConfigured},
 		},
 	})
 }
